@@ -47,7 +47,11 @@ NoPhantomObserved(info) ==
 AcceptReg(r) ==
   CASE Check = "C04" -> \A i \in 1..N : ShapeOK(i)
     [] Check = "C05" -> \A i, j \in 1..N : (r.ids[i] = r.ids[j]) <=> (NF(ex[i].e) = NF(ex[j].e))
-    [] Check = "C17" -> \A i \in 1..N : NoPhantomObserved(ex[i].info) /\ NoPhantomMember(BuiltinInfo(ex[i].e, DocsOn))
+    \* no member observed has the marker identity, and the observed members are exactly the documented ones after
+    \* erasure (a marker that hides behind a wrapper which no longer forwards its identity is an extra member)
+    [] Check = "C17" -> \A i \in 1..N : /\ NoPhantomObserved(ex[i].info) /\ NoPhantomMember(BuiltinInfo(ex[i].e, DocsOn))
+                                          /\ LET want == BuiltinInfo(ex[i].e, DocsOn) IN
+                                             (\A c \in Range(Refs(want)) : HasExpr(c)) => Refs(MapRefs(want, LAMBDA c : TidOf(c))) = Refs(ex[i].info)
     [] OTHER -> TRUE
 AcceptMatrix(m) ==
   Check = "C16" =>
